@@ -101,6 +101,10 @@ func genQCfg(rc *RunCtx) QCfg {
 		c.IDClockDrift = r.Pick(0, 3, 16, 200)
 	case "C08":
 	}
+	// long delays of one goroutine per step (own stream: the rest of the configuration of a seed is unchanged)
+	lr := NewPRNG(rc.Seed ^ 0x10c6de1a)
+	c.LongProb = uint32(lr.Pick(0, 0, 40, 160, 600))
+	c.LongSpin = lr.Pick(40, 300, 2500)
 	return c
 }
 
@@ -172,7 +176,35 @@ func genQOps(rc *RunCtx, c QCfg) []Op {
 	weights := []int{w.pub, w.sub, w.rdy, w.fin, w.req, w.touch, w.stale, w.cls, w.closeC, w.adv, w.stats,
 		w.createCh, w.pause, w.unpause, w.emptyCh, w.deleteCh, w.emptyT, w.deleteT, w.restart}
 	restarts := 0
+	// C04: a stuck consumer. Messages published one scan interval apart to a consumer that never answers time
+	// out one per scan pass, for ever (each is handed out again and times out again); a deferred publish on
+	// the same channel must still come out on time. (Several other channels exist, so that the one busy
+	// channel does not make the scan loop go round again at once.)
+	trickleAt := -1
+	tr := NewPRNG(rc.Seed ^ 0x7c1c)
+	if rc.Prop == "C04" && c.MaxRdy >= 50 && c.ScanIntervalMs > 0 && tr.Chance(1, 3) {
+		trickleAt = tr.Range(2, n/2)
+	}
 	for len(ops) < n {
+		if len(ops) >= trickleAt && trickleAt >= 0 {
+			trickleAt = -1
+			t, ch := int64(tr.Intn(2)), int64(tr.Intn(2))
+			for k := int64(0); k < 4; k++ {
+				add(Op{Kind: "admin", S: "create_channel", A: (t + 1 + k/2) % 8, B: k})
+			}
+			add(Op{Kind: "sub", A: t, B: ch, C: c.MaxRdy, D: 1})
+			k := c.MsgTimeoutMs/c.ScanIntervalMs + 3
+			if k > 24 {
+				k = 24
+			}
+			for i := int64(0); i < k; i++ {
+				add(Op{Kind: "pub", A: t, C: 0})
+				add(Op{Kind: "adv", A: c.ScanIntervalMs})
+			}
+			add(Op{Kind: "pub", A: t, C: 2, D: 3 * c.ScanIntervalMs})
+			add(Op{Kind: "adv", A: 3*c.MsgTimeoutMs + 6000})
+			continue
+		}
 		var o Op
 		switch r.Weighted(weights) {
 		case 0:
@@ -376,6 +408,7 @@ func queueWorld(rc *RunCtx) {
 	}
 	rc.Sched.Prob = c.YieldProb
 	rc.Sched.Prefixes = c.YieldPrefixes
+	rc.Sched.LongProb, rc.Sched.LongSpin = c.LongProb, c.LongSpin
 	for _, s := range c.Steer {
 		rc.Sched.Rules = append(rc.Sched.Rules, &simrt.Rule{Hold: s.Hold, Until: s.Until, MaxSpin: s.MaxSpin, Nth: s.Nth, OneShot: true})
 	}
@@ -532,7 +565,12 @@ func (w *qWorld) exec(op Op) {
 	case "rdy":
 		if co := w.liveConsumer(op.A); co != nil {
 			if co.Closing {
-				// RDY after CLS is ignored by design, whatever its value
+				// after CLS nothing more is sent, whatever the connection asks for: a RDY on a closing
+				// connection must not re-arm delivery (the model keeps RDY 0; message-after-cls watches)
+				if op.B >= 0 && op.B <= w.cfg.MaxRdy {
+					co.cl.Cmd(fmt.Sprintf("RDY %d", op.B), nil)
+					w.rc.Probe("rdy_after_cls")
+				}
 			} else if op.B < 0 || op.B > w.cfg.MaxRdy {
 				co.fatalSent = true
 				co.expectClose = true
@@ -589,6 +627,9 @@ func (w *qWorld) exec(op Op) {
 		}
 		if w.enforce["C04"] {
 			w.checkLate()
+			if op.B == 0 {
+				w.checkDeferredLate(d)
+			}
 		}
 		return
 	case "stats":
